@@ -21,6 +21,7 @@ func whoName(w int) string {
 const (
 	wZero    = -1 // the zero / empty value, where writing it is a legal *set*
 	wRtTweak = -2 // the runtime's value with a small same-shape difference (mounts, devices)
+	wUnl     = -3 // -1 ("unlimited") in the signed resource fields
 )
 
 func indexOf(list []string, k string) int {
@@ -39,6 +40,8 @@ func valW(valOf string, own int) int {
 		return wZero
 	case valOf == "rt~":
 		return wRtTweak
+	case valOf == "unl":
+		return wUnl
 	case valOf == "rt":
 		return 0
 	case len(valOf) == 2 && valOf[0] == 'p' && valOf[1] >= '0' && valOf[1] <= '9':
@@ -80,6 +83,9 @@ var signedFields = map[string]bool{"memLimit": true, "memReservation": true, "me
 func numVal(w int, field string) int64 {
 	if w == wZero {
 		return 0
+	}
+	if w == wUnl {
+		return -1
 	}
 	if w < 0 {
 		w = 0
@@ -142,6 +148,11 @@ func famW(fam, valOf string, own int, adjust bool) int {
 			return wRtTweak
 		}
 		return 0
+	case wUnl:
+		if signedFields[fam] {
+			return wUnl
+		}
+		return own
 	}
 	return w
 }
